@@ -365,8 +365,10 @@ func cachingHandler(router proxy.Router, logger *apexlog.Logger, conf *config.Co
 				dirs := caching.GetCacheControlDirectives(reqres.Response.Header)
 				var statusOverride *int
 				if rRange != nil {
-					// A range can only be cut out of a complete 200 that goes through the cache file.
-					if reqres.Response.StatusCode == 200 && !dirs.DoNotCache() && !shouldSkip {
+					// A range can only be cut out of a complete 200 that goes through the cache file, and only when
+					// that file holds the body as the origin sent it: the lengths of a recompressed body are not known here.
+					recompressed := reqres.Recompression.Add != util.CompressionTypeNone || reqres.Recompression.Remove != util.CompressionTypeNone
+					if reqres.Response.StatusCode == 200 && !dirs.DoNotCache() && !shouldSkip && !recompressed {
 						var s int
 						s, alwaysInclude = setRangedHeaders(rRange, reqres.Response.ContentLength, reqres.Response.StatusCode, alwaysInclude)
 						if s >= 400 {
